@@ -77,6 +77,7 @@ type ccrOp struct {
 	Type   int    `json:"type"`   // CcRequestType
 	Amt    uint64 `json:"amt"`
 	Num    uint32 `json:"num"`
+	Sess   int    `json:"sess,omitempty"` // 0: a Session-Id of its own; 1: the subscriber's Session-Id (the CHF uses one per subscriber for all rating groups)
 }
 
 type c07Target struct {
@@ -136,6 +137,9 @@ func c07Job(t *testing.T, raw json.RawMessage) (any, error) {
 			for i, op := range a.Ops {
 				tg := a.Targets[op.Acct]
 				sess := fmt.Sprintf("sess-%d-%d", op.Acct, i)
+				if op.Sess == 1 {
+					sess = "sess-of-" + tg.Imsi
+				}
 				req := &cd.AccountDebitRequest{SessionId: datatype.UTF8String(sess), OriginHost: "verif-client", OriginRealm: "go-diameter",
 					DestinationRealm: "go-diameter", DestinationHost: "server", UserName: datatype.OctetString("CHF"),
 					RequestedAction: cd.RequestedAction(op.Action), CcRequestType: cd.CcRequestType(op.Type), CcRequestNumber: datatype.Unsigned32(op.Num),
@@ -247,8 +251,8 @@ func init() {
 		pool := NewPool(0)
 		var big int64 = 1 << 62
 		targetSets := [][]c07Target{
-			{{"208930000000001", 1, 100}, {"208930000000001", 2, 0}, {"208930000000002", 1, 1}, {"208930000000009", 1, -1}, {"208930000000001", 9, -1}},
-			{{"208930000000001", 1, big}, {"208930000000001", 2, 1<<53 + 1}, {"208930000000002", 1, math.MaxInt64 - 5}, {"208930000000009", 1, -1}, {"208930000000001", 9, -1}},
+			{{"208930000000001", 1, 100}, {"208930000000001", 2, 0}, {"208930000000002", 1, 1}, {"208930000000009", 1, -1}, {"208930000000001", 9, -1}, {"208930000000001", 0, -1}, {"208930000000002", math.MaxUint32, -1}},
+			{{"208930000000001", 1, big}, {"208930000000001", 2, 1<<53 + 1}, {"208930000000002", 1, math.MaxInt64 - 5}, {"208930000000009", 1, -1}, {"208930000000001", 9, -1}, {"208930000000001", 0, -1}},
 		}
 		depth := 2
 		if rep.Tier == "thorough" {
@@ -263,6 +267,9 @@ func init() {
 				for ai := range targets {
 					b := bals[ai]
 					amts := []uint64{0, 1, 7, 1 << 31, 1 << 32, 1<<53 + 1, 1<<62 + 1, math.MaxInt64}
+					if b < 0 {
+						amts = []uint64{1, 1 << 32} // unknown subscriber / rating group: the amount plays no role
+					}
 					if b >= 0 {
 						amts = append(amts, uint64(b), uint64(b)+1)
 						if b > 0 {
@@ -270,7 +277,7 @@ func init() {
 						}
 					}
 					seen := map[uint64]bool{}
-					for _, amt := range amts {
+					for amtIdx, amt := range amts {
 						if seen[amt] || amt > math.MaxInt64 {
 							continue
 						}
@@ -287,7 +294,14 @@ func init() {
 								if b >= 0 && act == 0 && ty == 3 && int64(amt) > b {
 									continue // a termination debit beyond the balance is the CHF-side overdraft question (C06)
 								}
-								ops = append(ops, ccrOp{Acct: ai, Action: act, Type: ty, Amt: amt, Num: uint32(len(ops) % 7)})
+								// half of the requests use the subscriber's Session-Id with a request number that depends on
+								// action and type only (as the CHF does per rating group: the same (session, number, type, action)
+								// then recurs for another rating group), the other half a Session-Id and number of their own
+								op := ccrOp{Acct: ai, Action: act, Type: ty, Amt: amt, Num: uint32(len(ops) % 7)}
+								if amtIdx%2 == 0 {
+									op.Sess, op.Num = 1, uint32((act*4+ty)%5)
+								}
+								ops = append(ops, op)
 							}
 						}
 					}
@@ -368,7 +382,7 @@ func init() {
 		rep.Cov["exhaustive"] = exhaustive
 		rep.Cov["depth"] = depth
 		rep.Cov["distinct_outcomes"] = outcomes
-		rep.Cov["method"] = "breadth-first search over sequences of credit-control requests sent by a real go-diameter client over the modelled network to the server started by abmf.OpenServer; alphabet = 4 actions x request types x amounts {0,1,7,balance-1,balance,balance+1,2^31,2^32,2^53+1,2^62+1,2^63-1} x 5 targets (3 accounts, unknown subscriber, unknown rating group), from two sets of initial balances (small and near 2^62/2^63); reference model = a map of balances; states deduplicated by the stored balances"
+		rep.Cov["method"] = "breadth-first search over sequences of credit-control requests sent by a real go-diameter client over the modelled network to the server started by abmf.OpenServer; alphabet = 4 actions x request types x amounts {0,1,7,balance-1,balance,balance+1,2^31,2^32,2^53+1,2^62+1,2^63-1} x 7 targets (3 accounts, an unknown subscriber, unknown rating groups 9, 0 and 2^32-1), half of the requests under the subscriber's Session-Id with request numbers that recur across rating groups, from two sets of initial balances (small and near 2^62/2^63); reference model = a map of balances; states deduplicated by the stored balances"
 		rep.Assumptions = append(rep.Assumptions, "'no answer' is decided at quiescence of the whole world (every goroutine blocked), not by waiting")
 		return rep.Finish()
 	}
